@@ -248,3 +248,367 @@ M.contract(P_REL + ':SpecificPathRelativity.__init__', params=dict(self=Inst(Spe
            ensures={'view': lambda self, relative: self.relativity_type is relative
                                                     and iff(self.is_absolute, relative is None)
                                                     and iff(self.is_relative, relative is not None)}, raises_only=())
+
+# ============================================================================== root resolvers: the root table
+# `self` ranges over the REAL resolver objects of the module (read from the imported tree).
+
+SDS_RESOLVER = OneOf(relativity_root.resolver_for_act, relativity_root.resolver_for_tmp_user,
+                     relativity_root.resolver_for_result)
+CWD_RESOLVER = Const(relativity_root.resolver_for_cwd)
+NON_HDS_RESOLVER = OneOf(relativity_root.resolver_for_act, relativity_root.resolver_for_tmp_user,
+                         relativity_root.resolver_for_result, relativity_root.resolver_for_cwd)
+HDS_RESOLVER = OneOf(relativity_root.resolver_for_hds_case, relativity_root.resolver_for_hds_act)
+RESOLVER = OneOf(relativity_root.resolver_for_act, relativity_root.resolver_for_tmp_user,
+                 relativity_root.resolver_for_result, relativity_root.resolver_for_cwd,
+                 relativity_root.resolver_for_hds_case, relativity_root.resolver_for_hds_act)
+
+
+def rel_of_resolver(resolver):
+    return resolver.relativity_type
+
+
+M.contract(P_ROOT + ':RelSdsRootResolver.from_non_hds', params=dict(self=SDS_RESOLVER, sds=SDS), inline=True,
+           ensures={'documented-root': lambda self, sds, result:
+           den(result) == non_hds_root(rel_of_resolver(self), sds, 0)}, raises_only=())
+M.contract(P_ROOT + ':RelSdsRootResolver.from_sds', params=dict(self=SDS_RESOLVER, sds=SDS), inline=True,
+           ensures={'documented-root': lambda self, sds, result:
+           den(result) == non_hds_root(rel_of_resolver(self), sds, 0)}, raises_only=())
+M.contract(P_ROOT + ':RelNonHdsRootResolverForCwd.from_non_hds', params=dict(self=CWD_RESOLVER, sds=SDS), inline=True,
+           ensures={'current-directory-when-called': lambda self, sds, result, ghost:
+           den(result) == cwd_now(ghost) and rel_of_resolver(self) is RelOptionType.REL_CWD}, raises_only=())
+M.contract(P_ROOT + ':RelNonHdsRootResolverForCwd.from_cwd', params=dict(self=CWD_RESOLVER), inline=True,
+           ensures={'current-directory-when-called': lambda result, ghost: den(result) == cwd_now(ghost)},
+           raises_only=())
+M.contract(P_ROOT + ':RelHdsRootResolver.from_hds', params=dict(self=HDS_RESOLVER, hds=HDS), inline=True,
+           ensures={'documented-root': lambda self, hds, result: den(result) == hds_root(rel_of_resolver(self), hds)},
+           raises_only=())
+M.contract(P_ROOT + ':RelNonHdsRootResolver.from_tcds', params=dict(self=NON_HDS_RESOLVER, tcds=TCDS), inline=True,
+           ensures={'documented-root': lambda self, tcds, result, ghost:
+           den(result) == root_of(rel_of_resolver(self), tcds, cwd_now(ghost))}, raises_only=())
+M.contract(P_ROOT + ':RelHdsRootResolver.from_tcds', params=dict(self=HDS_RESOLVER, tcds=TCDS), inline=True,
+           ensures={'documented-root': lambda self, tcds, result, ghost:
+           den(result) == root_of(rel_of_resolver(self), tcds, cwd_now(ghost))}, raises_only=())
+# a resolver asked for a root of the other partition refuses
+M.contract(P_ROOT + ':RelRootResolver.from_hds', params=dict(self=NON_HDS_RESOLVER, hds=HDS), inline=True,
+           raises={ValueError: {'when': lambda self: True}}, raises_only=())
+M.contract(P_ROOT + ':RelRootResolver.from_non_hds', params=dict(self=HDS_RESOLVER, sds=SDS), inline=True,
+           raises={ValueError: {'when': lambda self: True}}, raises_only=())
+
+
+@M.check('root table')
+def _root_table(ctx):
+    """REL_OPTIONS_MAP and its three sub-maps: relativity r |-> the resolver whose relativity_type is r
+    (what the resolver of each relativity resolves to is proved above, for the same objects)."""
+    rpo = relative_path_options
+    rr = relativity_root
+    expected = {RelOptionType.REL_ACT: rr.resolver_for_act, RelOptionType.REL_TMP: rr.resolver_for_tmp_user,
+                RelOptionType.REL_RESULT: rr.resolver_for_result, RelOptionType.REL_CWD: rr.resolver_for_cwd,
+                RelOptionType.REL_HDS_CASE: rr.resolver_for_hds_case, RelOptionType.REL_HDS_ACT: rr.resolver_for_hds_act}
+    ctx.obligation('REL_OPTIONS_MAP is total on RelOptionType', set(rpo.REL_OPTIONS_MAP) == set(RelOptionType),
+                   'enumeration')
+    for r in RelOptionType:
+        info = rpo.REL_OPTIONS_MAP.get(r)
+        ok = info is not None and info.root_resolver is expected[r] and info.root_resolver.relativity_type is r
+        ctx.obligation('REL_OPTIONS_MAP[%s]: the resolver of this relativity, relativity_type == %s' % (r.name, r.name),
+                       ok, 'enumeration')
+    for sub_map, cls in ((rpo.REL_SDS_OPTIONS_MAP, RelSdsOptionType), (rpo.REL_HDS_OPTIONS_MAP, RelHdsOptionType),
+                         (rpo.REL_NON_HDS_OPTIONS_MAP, RelNonHdsOptionType)):
+        ok = set(sub_map) == set(cls) and all(sub_map[m] is rpo.REL_OPTIONS_MAP[RelOptionType[m.name]] for m in cls)
+        ctx.obligation('%s map agrees with REL_OPTIONS_MAP on every member' % cls.__name__, ok, 'enumeration')
+    ctx.obligation('REL_SDS_RESOLVERS: the three sandbox resolvers',
+                   rr.REL_SDS_RESOLVERS == {RelSdsOptionType.REL_ACT: rr.resolver_for_act,
+                                            RelSdsOptionType.REL_RESULT: rr.resolver_for_result,
+                                            RelSdsOptionType.REL_TMP: rr.resolver_for_tmp_user}, 'enumeration')
+    names = {r: rpo.REL_OPTIONS_MAP[r].option_name.long for r in RelOptionType}
+    ctx.obligation('option names are the documented ones and pairwise distinct',
+                   names == {RelOptionType.REL_ACT: 'rel-act', RelOptionType.REL_TMP: 'rel-tmp',
+                             RelOptionType.REL_RESULT: 'rel-result', RelOptionType.REL_CWD: 'rel-cd',
+                             RelOptionType.REL_HDS_CASE: 'rel-home', RelOptionType.REL_HDS_ACT: 'rel-act-home'},
+                   'enumeration', detail={'names': {k.name: v for k, v in names.items()}})
+
+
+@M.check('pathlib axioms')
+def _axioms(ctx):
+    pathspec.check_pathlib_axioms(ctx)
+
+
+# ============================================================================== path values (PathDdv)
+# Abstract view of a PathDdv d:   rel(d)  : its relativity (None: absolute)
+#                                 tail(d) : the pure path that follows the root
+# Every class is proved to behave as this view says (`resolved`), for every tcds and the current
+# directory at the time of the call.  An unknown PathDdv (the value of a path symbol) is an opaque
+# object that behaves so BY DEFINITION of the interface `PathDdvI` -- the induction hypothesis, which the
+# contracts of the four classes and of the PathSdv classes (below) re-establish.
+
+class PartI(Interface):
+    """PathPartDdv: the string that follows the root"""
+    target_class = PathPartDdv
+    methods = {'value': Method(returns=Str, pure=True)}
+    # PathPartDdvAsNothing.value() == '' (proved: contract of PathPartDdvAsNothing.value)
+    invariant = staticmethod(lambda self: implies(isinstance(self, path_part_ddvs.PathPartDdvAsNothing),
+                                                  self.value() == ''))
+
+
+PART = Iface(PartI)
+
+M.contract('exactly_lib.type_val_deps.types.path.path_part_ddvs:PathPartDdvAsNothing.value',
+           params=dict(self=Inst(path_part_ddvs.PathPartDdvAsNothing)), inline=True,
+           ensures={'empty': lambda result: result == ''}, raises_only=())
+M.contract('exactly_lib.type_val_deps.types.path.path_part_ddvs:PathPartDdvAsFixedPath.value',
+           params=dict(self=Inst(path_part_ddvs.PathPartDdvAsFixedPath, _file_name=Str)), inline=True,
+           ensures={'the-file-name': lambda self, result: result == self._file_name}, raises_only=())
+
+
+def rel_view(d):
+    if is_opaque(d):
+        return d.rel
+    if isinstance(d, path_ddvs._StackedPathDdv):
+        return rel_view(d.base_path)
+    if isinstance(d, path_ddvs._PathDdvFromRelRootResolver):
+        return rel_of_resolver(d._rel_root_resolver)
+    if isinstance(d, path_ddvs._PathDdvRelHds):
+        return RelOptionType[d._rel_option.name]
+    if isinstance(d, path_ddvs._PathDdvAbsolute):
+        return None
+    raise ValueError('rel_view: unexpected PathDdv')
+
+
+def tail_view(d):
+    if is_opaque(d):
+        return d.tail
+    if isinstance(d, path_ddvs._StackedPathDdv):
+        return join(tail_view(d.base_path), P(d._stacked_path_suffix.value()))
+    return P(d._path_suffix.value())
+
+
+def wf(d):
+    return wf_view(rel_view(d), tail_view(d))
+
+
+def value_is(d, path, tcds, cwd):
+    return den(path) == resolved(rel_view(d), tail_view(d), tcds, cwd)
+
+
+def _ddv_relativity(interp, self, args, kwargs):
+    r = self._pv_attrs.get('__relativity__')
+    if r is None:
+        r = object.__new__(SpecificPathRelativity)
+        r._relative = interp.getattr(self, 'rel')
+        self._pv_attrs['__relativity__'] = r
+    return r
+
+
+def _ddv_value_any(interp, self, args, kwargs):
+    (tcds,) = args
+    pid = interp.call(resolved, [interp.getattr(self, 'rel'), interp.getattr(self, 'tail'), tcds,
+                                 pathspec._m_cwd_now(interp, [], {})])
+    return pathspec.new_path(interp, pid, 'value')
+
+
+def _ddv_value_pre(interp, self, args, kwargs):
+    (hds,) = args
+    r = interp.resolve(interp.getattr(self, 'rel'))
+    tail = interp.getattr(self, 'tail')
+    if r is None:
+        return pathspec.new_path(interp, tail, 'value')
+    if r not in HDS_RELS:
+        raise PyRaise(ValueError('PathDdvI: no value before the sandbox exists'))
+    return pathspec.new_path(interp, pathspec.mk_join(interp, interp.call(hds_root, [r, hds]), tail), 'value')
+
+
+def _ddv_value_post(interp, self, args, kwargs):
+    (sds,) = args
+    r = interp.resolve(interp.getattr(self, 'rel'))
+    tail = interp.getattr(self, 'tail')
+    if r is None:
+        return pathspec.new_path(interp, tail, 'value')
+    if r in HDS_RELS:
+        raise PyRaise(ValueError('PathDdvI: the value exists before the sandbox'))
+    root = interp.call(non_hds_root, [r, sds, pathspec._m_cwd_now(interp, [], {})])
+    return pathspec.new_path(interp, pathspec.mk_join(interp, root, tail), 'value')
+
+
+def _ddv_value_no_dep(interp, self, args, kwargs):
+    r = interp.resolve(interp.getattr(self, 'rel'))
+    if r is not None:
+        raise PyRaise(ValueError('PathDdvI: has dir dependency'))
+    return pathspec.new_path(interp, interp.getattr(self, 'tail'), 'value')
+
+
+def _ddv_has_dep(interp, self, args, kwargs):
+    return interp.not_(interp.is_(interp.getattr(self, 'rel'), None))
+
+
+class PathDdvI(Interface):
+    target_class = PathDdv
+    attrs = {'rel': OPT_REL, 'tail': Int}
+    methods = {
+        'relativity': Method(model=_ddv_relativity),
+        'value_of_any_dependency': Method(model=_ddv_value_any),
+        'value_pre_sds': Method(model=_ddv_value_pre),
+        'value_post_sds': Method(model=_ddv_value_post),
+        'value_when_no_dir_dependencies': Method(model=_ddv_value_no_dep),
+        'has_dir_dependency': Method(model=_ddv_has_dep),
+        'path_suffix': Method(returns=PART, pure=True),
+    }
+    invariant = staticmethod(lambda self: wf_view(self.rel, self.tail))
+
+
+ANY_DDV = Iface(PathDdvI)
+
+
+def _rel_suffix(self):
+    """class invariant of a relative PathDdv: its suffix is a relative path
+    (precondition of the constructors, proved at the construction sites)"""
+    return not self._path_suffix.value().startswith('/')
+
+
+def _abs_suffix(self):
+    return self._path_suffix.value().startswith('/')
+
+
+def _stacked_suffix_rel(self):
+    return not self._stacked_path_suffix.value().startswith('/')
+
+
+REL_ROOT_DDV = Inst(path_ddvs._PathDdvFromRelRootResolver, _invariant=_rel_suffix,
+                    _path_suffix=PART, _rel_root_resolver=RESOLVER)
+REL_HDS_DDV = Inst(path_ddvs._PathDdvRelHds, _invariant=_rel_suffix,
+                   _path_suffix=PART, _rel_option=EnumOf(RelHdsOptionType))
+ABS_DDV = Inst(path_ddvs._PathDdvAbsolute, _invariant=_abs_suffix, _path_suffix=PART)
+STACKED_DDV = Inst(path_ddvs._StackedPathDdv, _invariant=_stacked_suffix_rel,
+                   _stacked_path_suffix=PART, _combined_path_suffix=PART, base_path=ANY_DDV)
+CONCRETE_DDV = Union(REL_ROOT_DDV, REL_HDS_DDV, ABS_DDV, STACKED_DDV)
+
+def every_ddv_class_is_well_formed(d):
+    return wf(d)
+
+
+M.contract('contracts.C12_paths:every_ddv_class_is_well_formed', params=dict(d=CONCRETE_DDV),
+           ensures={'every PathDdv class is well formed (relative <=> relative tail)': lambda result: result},
+           raises_only=())
+
+# ---- relativity()
+
+M.contract(P_BASE + ':PathDdvWithPathSuffixAndIsNotAbsoluteBase.relativity',
+           params=dict(self=Union(REL_ROOT_DDV, REL_HDS_DDV)), inline=True,
+           ensures={'relativity-of-the-view': lambda self, result: result.relativity_type is rel_view(self)
+                                                                   and result.is_relative and not result.is_absolute},
+           raises_only=())
+M.contract(P_DDVS + ':_PathDdvAbsolute.relativity', params=dict(self=ABS_DDV), inline=True,
+           ensures={'absolute': lambda self, result: result.relativity_type is None and result.is_absolute
+                                                     and rel_view(self) is None}, raises_only=())
+M.contract(P_DDVS + ':_StackedPathDdv.relativity', params=dict(self=STACKED_DDV), inline=True,
+           ensures={'relativity-of-the-base-path': lambda self, result:
+           result.relativity_type is rel_view(self.base_path) and result.relativity_type is rel_view(self)},
+           raises_only=())
+
+# ---- values
+
+M.contract('exactly_lib.type_val_deps.dep_variants.ddv.dir_dependent_value:Max1DependencyDdv.value_of_any_dependency',
+           params=dict(self=CONCRETE_DDV, tcds=TCDS), returns=PATH,
+           ensures={'root-of-the-relativity-joined-with-the-tail': lambda self, tcds, result, ghost:
+           value_is(self, result, tcds, cwd_now(ghost))},
+           raises_only=())
+
+for _cls, _shape in (('_PathDdvFromRelRootResolver', REL_ROOT_DDV), ('_PathDdvRelHds', REL_HDS_DDV),
+                     ('_PathDdvAbsolute', ABS_DDV), ('_StackedPathDdv', STACKED_DDV)):
+    M.contract('%s:%s.value_pre_sds' % (P_DDVS, _cls), params=dict(self=_shape, hds=HDS), inline=True,
+               raises={ValueError: {'when': lambda self: rel_view(self) is not None and not is_hds(rel_view(self))}},
+               ensures={'home-root-joined-with-the-tail': lambda self, hds, result:
+               den(result) == (tail_view(self) if rel_view(self) is None
+                               else join(hds_root(rel_view(self), hds), tail_view(self)))},
+               raises_only=())
+    M.contract('%s:%s.value_post_sds' % (P_DDVS, _cls), params=dict(self=_shape, sds=SDS), inline=True,
+               raises={ValueError: {'when': lambda self: rel_view(self) is not None and is_hds(rel_view(self))}},
+               ensures={'non-home-root-joined-with-the-tail': lambda self, sds, result, ghost:
+               den(result) == (tail_view(self) if rel_view(self) is None
+                               else join(non_hds_root(rel_view(self), sds, cwd_now(ghost)), tail_view(self)))},
+               raises_only=())
+
+# ---- constructors.  A relative PathDdv requires a RELATIVE suffix (so that root / suffix lies under the
+# root: `join(root, '/abs') == '/abs'` in pathlib); the precondition is proved at every call site under contract.
+
+
+def relative_part(part):
+    return not part.value().startswith('/')
+
+
+M.contract(P_DDVS + ':constant_path_part', params=dict(file_name=Str), inline=True,
+           ensures={'value': lambda file_name, result: result.value() == file_name}, raises_only=())
+M.contract(P_DDVS + ':empty_path_part', params=dict(), inline=True,
+           ensures={'value': lambda result: result.value() == ''
+                                            and isinstance(result, path_part_ddvs.PathPartDdvAsNothing)},
+           raises_only=())
+
+M.contract(P_DDVS + ':of_rel_root', params=dict(rel_root_resolver=RESOLVER, path_suffix=PART), returns=ANY_DDV,
+           requires=lambda path_suffix: relative_part(path_suffix),
+           ensures={'relativity-of-the-resolver': lambda rel_root_resolver, result:
+           rel_view(result) is rel_of_resolver(rel_root_resolver),
+                    'tail-is-the-suffix': lambda path_suffix, result: tail_view(result) == P(path_suffix.value()),
+                    'well-formed': lambda result: wf(result)}, raises_only=())
+
+M.contract(P_DDVS + ':of_rel_option', params=dict(rel_option=REL, path_suffix=PART), returns=ANY_DDV,
+           requires=lambda path_suffix: relative_part(path_suffix),
+           ensures={'relativity-is-the-option': lambda rel_option, result: rel_view(result) is rel_option,
+                    'tail-is-the-suffix': lambda path_suffix, result: tail_view(result) == P(path_suffix.value()),
+                    'well-formed': lambda result: wf(result)}, raises_only=())
+
+M.contract(P_DDVS + ':simple_of_rel_option', params=dict(rel_option=REL, file_name=Str), returns=ANY_DDV,
+           requires=lambda file_name: not file_name.startswith('/'),
+           ensures={'relativity-is-the-option': lambda rel_option, result: rel_view(result) is rel_option,
+                    'tail-is-the-file-name': lambda file_name, result: tail_view(result) == P(file_name),
+                    'well-formed': lambda result: wf(result)}, raises_only=())
+
+M.contract(P_DDVS + ':absolute_file_name', params=dict(file_name=Str), returns=ANY_DDV,
+           requires=lambda file_name: file_name.startswith('/'),
+           ensures={'absolute': lambda result: rel_view(result) is None,
+                    'tail-is-the-file-name': lambda file_name, result: tail_view(result) == P(file_name),
+                    'well-formed': lambda result: wf(result)}, raises_only=())
+
+M.contract(P_DDVS + ':absolute_path', params=dict(abs_path=PATH), returns=ANY_DDV,
+           requires=lambda abs_path: is_abs(den(abs_path)),
+           ensures={'absolute': lambda result: rel_view(result) is None,
+                    'tail-is-the-path': lambda abs_path, result: tail_view(result) == den(abs_path),
+                    'well-formed': lambda result: wf(result)}, raises_only=())
+
+M.contract(P_DDVS + ':absolute_part', params=dict(abs_path=PART), returns=ANY_DDV,
+           requires=lambda abs_path: abs_path.value().startswith('/'),
+           ensures={'absolute': lambda result: rel_view(result) is None,
+                    'tail-is-the-part': lambda abs_path, result: tail_view(result) == P(abs_path.value()),
+                    'well-formed': lambda result: wf(result)}, raises_only=())
+
+M.contract(P_DDVS + ':rel_abs_path', params=dict(abs_path_root=PATH, path_suffix=PART), returns=ANY_DDV,
+           requires=lambda abs_path_root: is_abs(den(abs_path_root)),
+           ensures={'absolute': lambda result: rel_view(result) is None,
+                    'root-joined-with-the-suffix': lambda abs_path_root, path_suffix, result:
+                    tail_view(result) == join(den(abs_path_root), P(path_suffix.value())),
+                    'well-formed': lambda result: wf(result)}, raises_only=())
+
+M.contract(P_DDVS + ':rel_hds', params=dict(rel_option=EnumOf(RelHdsOptionType), path_suffix=PART), returns=ANY_DDV,
+           requires=lambda path_suffix: relative_part(path_suffix),
+           ensures={'relativity-is-the-option': lambda rel_option, result: rel_view(result) is RelOptionType[rel_option.name],
+                    'tail-is-the-suffix': lambda path_suffix, result: tail_view(result) == P(path_suffix.value()),
+                    'well-formed': lambda result: wf(result)}, raises_only=())
+
+for _fn, _rel in (('rel_hds_case', RelOptionType.REL_HDS_CASE), ('rel_hds_act', RelOptionType.REL_HDS_ACT),
+                  ('rel_cwd', RelOptionType.REL_CWD), ('rel_act', RelOptionType.REL_ACT),
+                  ('rel_tmp_user', RelOptionType.REL_TMP), ('rel_result', RelOptionType.REL_RESULT)):
+    M.contract('%s:%s' % (P_DDVS, _fn), params=dict(path_suffix=PART), returns=ANY_DDV, ghosts=dict(rel=Const(_rel)),
+               requires=lambda path_suffix: relative_part(path_suffix),
+               ensures={'relativity-as-named': lambda rel, result: rel_view(result) is rel,
+                        'tail-is-the-suffix': lambda path_suffix, result: tail_view(result) == P(path_suffix.value()),
+                        'well-formed': lambda result: wf(result)}, raises_only=())
+
+M.contract(P_DDVS + ':rel_sandbox', params=dict(rel_option=EnumOf(RelSdsOptionType), path_suffix=PART),
+           returns=ANY_DDV, requires=lambda path_suffix: relative_part(path_suffix),
+           ensures={'relativity-is-the-option': lambda rel_option, result: rel_view(result) is RelOptionType[rel_option.name],
+                    'tail-is-the-suffix': lambda path_suffix, result: tail_view(result) == P(path_suffix.value()),
+                    'well-formed': lambda result: wf(result)}, raises_only=())
+
+M.contract(P_DDVS + ':stacked', params=dict(base_path=ANY_DDV, path_suffix=PART), returns=ANY_DDV,
+           requires=lambda path_suffix: relative_part(path_suffix),
+           ensures={'relativity-of-the-base-path': lambda base_path, result: rel_view(result) is rel_view(base_path),
+                    'base-tail-joined-with-the-suffix': lambda base_path, path_suffix, result:
+                    tail_view(result) == join(tail_view(base_path), P(path_suffix.value())),
+                    'well-formed': lambda result: wf(result)}, raises_only=())
